@@ -691,7 +691,7 @@ def inline_straight_line_helpers(tree: ast.Module, keep=frozenset()) -> int:
     total = 0
     top = {s.name: s for s in tree.body if isinstance(s, ast.FunctionDef) and s.name.startswith("_") and s.name not in keep and _straight_line(s) is not None}
 
-    def rewrite_block(block, methods, by_name, stored, cls_name=None):
+    def rewrite_block(block, methods, by_name, stored, cls_name=None, owner=None):
         nonlocal total
         i = 0
         while i < len(block):
@@ -725,6 +725,20 @@ def inline_straight_line_helpers(tree: ast.Module, keep=frozenset()) -> int:
                             if result is None:
                                 result = ast.Constant(None)
                             tail = [ast.copy_location(ast.Assign(targets=st.targets, value=result), st)]
+                            # `T = helper(..)` whose result is a local of the inlined body: that local simply *is* T
+                            tgt = st.targets[0] if len(st.targets) == 1 else None
+                            if isinstance(tgt, ast.Name) and isinstance(result, ast.Name) and "__i" in result.id and owner is not None and _stores(owner, tgt.id) == 1:
+                                first = next((k for k, x in enumerate(stmts) if any(isinstance(n, ast.Name) and n.id == result.id and isinstance(n.ctx, ast.Store) for n in ast.walk(x))), None)
+                                if first is not None:
+                                    def _loads_target(x, skip_value_of_first):
+                                        return any(isinstance(n, ast.Name) and n.id == tgt.id and isinstance(n.ctx, ast.Load) for n in ast.walk(x))
+                                    later_reads = any(_loads_target(x, False) for x in stmts[first + 1:])
+                                    if not later_reads:
+                                        for x in stmts:
+                                            for n in ast.walk(x):
+                                                if isinstance(n, ast.Name) and n.id == result.id:
+                                                    n.id = tgt.id
+                                        tail = []
                         elif kind == "return":
                             tail = [ast.copy_location(ast.Return(value=result), st)]
                         else:
@@ -738,9 +752,9 @@ def inline_straight_line_helpers(tree: ast.Module, keep=frozenset()) -> int:
                 for fld in ("body", "orelse", "finalbody"):
                     sub = getattr(st, fld, None)
                     if isinstance(sub, list) and sub and isinstance(sub[0], ast.stmt) and not isinstance(st, FUNC + (ast.ClassDef,)):
-                        rewrite_block(sub, methods, by_name, stored, cls_name)
+                        rewrite_block(sub, methods, by_name, stored, cls_name, owner)
                 for h in getattr(st, "handlers", []) or []:
-                    rewrite_block(h.body, methods, by_name, stored, cls_name)
+                    rewrite_block(h.body, methods, by_name, stored, cls_name, owner)
                 i += 1
 
     def do_function(fn, methods, cls_name=None):
@@ -749,7 +763,7 @@ def inline_straight_line_helpers(tree: ast.Module, keep=frozenset()) -> int:
         by_name = {k: v for k, v in top.items() if k not in stored and v is not fn}
         by_name.update({k: v for k, v in nested.items()})
         ms = {k: v for k, v in methods.items() if v is not fn}
-        rewrite_block(fn.body, ms, by_name, stored, cls_name)
+        rewrite_block(fn.body, ms, by_name, stored, cls_name, fn)
         for s in fn.body:
             if isinstance(s, FUNC):
                 do_function(s, methods, cls_name)
